@@ -1,1 +1,13 @@
 //! Facade for `rpc.rs`.
+
+pub use crate::rpc::{Message, Request, RequestBody, RequestId, Response, ResponseBody};
+
+/// `Message::encode`.
+pub fn message_encode(message: Message) -> Vec<u8> {
+    message.encode()
+}
+
+/// `Message::decode`; the error is rendered with `Debug`.
+pub fn message_decode(data: &[u8]) -> Result<Message, String> {
+    Message::decode(data).map_err(|e| format!("{e:?}"))
+}
